@@ -308,15 +308,55 @@ def same_class_options(rnd, topts):
     return o
 
 
+SIBLING = {'cfer': 'cfer-batch', 'cfer-batch': 'cfer', 'meek': 'warren', 'warren': 'meek',
+           'wigm-prf': 'wigm-prf-batch', 'wigm-prf-batch': 'wigm-prf', 'wigm': 'wigm-prf', 'meek-prf': 'meek'}
+
+
+def variant_election(rnd, e):
+    "a copy of an abstract election with the same title and candidate count and exactly one aspect changed"
+    import copy     # pylint: disable=import-outside-toplevel
+    v = copy.deepcopy(e)
+    n = v['n']
+    eligible = [c for c in range(1, n + 1) if c not in v['withdrawn']]
+    what = rnd.choice(('seats', 'tie', 'name', 'ballots', 'multipliers', 'nick'))
+    if what == 'seats' and len(eligible) >= 2:
+        choices = [s for s in range(1, len(eligible) + 1) if s != v['seats']]
+        v['seats'] = rnd.choice(choices)
+    elif what == 'tie':
+        t = list(range(1, n + 1))
+        rnd.shuffle(t)
+        v['tie'] = t if t != v.get('tie') else list(reversed(t))
+    elif what == 'name':
+        i = rnd.randrange(n)
+        v['names'][i] = v['names'][i] + ' Jr'
+        j = rnd.randrange(n)
+        v['names'][i], v['names'][j] = v['names'][j], v['names'][i]
+    elif what == 'ballots':
+        rnd.shuffle(v['ballots'])
+        for b in v['ballots'][:2]:
+            b[1] = list(reversed(b[1]))
+    elif what == 'multipliers' and not v.get('ids'):
+        for b in v['ballots']:
+            b[0] = b[0] + rnd.randint(0, 3)
+    else:
+        v['nick'] = None if v.get('nick') else ["c%d" % i for i in range(1, n + 1)]
+    return v
+
+
 def gen_session(seed, idx, extended=False):
     "deterministic session idx: dict(texts, ops, target, tags)"
     rnd = rng(seed, 'hist-x' if extended else 'hist', idx)
     ntexts = rnd.choice((1, 1, 2, 2, 3))
     texts = []
     elections = []
-    for _ in range(ntexts):
-        rule = rnd.choice(gen.RULES)
-        e = gen.gen_election(rnd, rule=rule, small=(rnd.random() < 0.7))
+    for ti in range(ntexts):
+        if ti > 0 and rnd.random() < 0.4:
+            # a near-twin of an earlier profile: same title and candidate count, one thing changed -- the shape a
+            # cache keyed too coarsely (by title, by candidate id, by number of candidates) confuses
+            e = variant_election(rnd, elections[rnd.randrange(ti)])
+        else:
+            rule = rnd.choice(gen.RULES)
+            e = gen.gen_election(rnd, rule=rule, small=(rnd.random() < 0.7))
         elections.append(e)
         texts.append(gen.render_blt(e, rnd))
     trule = rnd.choice(gen.RULES)
@@ -373,9 +413,13 @@ def gen_session(seed, idx, extended=False):
         if q < 0.125:
             o = dict(topts)
             tags.add('identical_recount')
-        elif q < 0.56:
+        elif q < 0.50:
             o = same_class_options(rnd, topts)
             tags.add('same_class_reinit')
+        elif q < 0.58 and topts['rule'] in SIBLING:
+            # the sibling rule shares the target rule's class (cfer/cfer-batch, meek/warren, wigm-prf/-batch)
+            o = gen.gen_options(rnd, rule=SIBLING[topts['rule']], n=elections[pidx]['n'])
+            tags.add('sibling_rule')
         elif q < 0.78:
             o = gen.gen_options(rnd, rule=topts['rule'], n=elections[pidx]['n'])
             tags.add('same_rule')
